@@ -208,9 +208,12 @@ class FabRun:
           seq, th, op, obj, args, r = l
           if obj in ("pq_fifo", "pq_lifo"):
             kind = obj[3:]
-            if op in ("put", "put_nowait") and args:
+            item_ok = lambda x: isinstance(x, (list, tuple)) and len(x) >= 3
+            if op in ("put", "put_nowait") and args and item_ok(args[0]):
               me.emit(["put", kind, args[0][0] if isinstance(args[0][0], int) else 0, args[0][1], args[0][2]])
-            elif op in ("get", "get_nowait") and isinstance(r, list):
+            elif op in ("put", "put_nowait") and args:
+              me.emit(["putother", kind, str(args[0])[:20], "", ""])       # something that is not a fabric event (judged by what follows)
+            elif op in ("get", "get_nowait") and item_ok(r):
               me.emit(["get", kind, r[0] if isinstance(r[0], int) else 0, r[1], r[2], th])
           elif isinstance(obj, str) and obj.startswith("q") and op in ("append", "appendleft"):
             me.emit(["app", obj, args[0], th, op])
